@@ -47,6 +47,10 @@ func subKind(cond string) string {
 		return "IsString"
 	case strings.Contains(cond, "(*types.Map)"):
 		return "Map"
+	case strings.Contains(cond, "(*types.Slice)"):
+		return "Slice"
+	case strings.Contains(cond, "(*ssa.Builtin)"):
+		return "builtin"
 	}
 	return "?" + cond
 }
@@ -126,6 +130,21 @@ func clauseEntries(fset *token.FileSet, stmts []ast.Stmt, vars map[string]string
 					cur = nil
 				default:
 					cur = nil
+				}
+			}
+		case *ast.SwitchStmt:
+			// switch builtin.Name() { case "append", "copy": ... }: one sub-kind per listed name
+			if s.Tag == nil || !strings.Contains(exprText(fset, s.Tag), "Name()") {
+				continue
+			}
+			for _, c := range s.Body.List {
+				cc := c.(*ast.CaseClause)
+				inner, _ := clauseEntries(fset, cc.Body, vars)
+				for _, ne := range cc.List {
+					name := strings.Trim(exprText(fset, ne), "\"")
+					for _, e := range inner {
+						out = append(out, struct{ sub, verdict string }{"name=" + name, e.verdict})
+					}
 				}
 			}
 		case *ast.RangeStmt:
@@ -301,7 +320,7 @@ func genLocality(repo, out string) error {
 	if ce == nil {
 		return fmt.Errorf("checkEscape not found")
 	}
-	skipsCalls, iteratesMarks, reports := false, false, false
+	skipsCalls, iteratesMarks, reports, exemptsBuiltins := false, false, false, false
 	ast.Inspect(ce.Body, func(n ast.Node) bool {
 		switch x := n.(type) {
 		case *ast.IfStmt:
@@ -312,6 +331,11 @@ func genLocality(repo, out string) error {
 		case *ast.RangeStmt:
 			if strings.Contains(exprText(fset, x.X), "Marks()") {
 				iteratesMarks = true
+			}
+		case *ast.AssignStmt:
+			// isCall = false inside `if _, isBuiltin := call.Call.Value.(*ssa.Builtin); isBuiltin { ... }`
+			if len(x.Lhs) == 1 && len(x.Rhs) == 1 && exprText(fset, x.Lhs[0]) == "isCall" && exprText(fset, x.Rhs[0]) == "false" {
+				exemptsBuiltins = true
 			}
 		case *ast.CallExpr:
 			if strings.Contains(exprText(fset, x.Fun), "addNewEscape") {
@@ -354,5 +378,7 @@ func genLocality(repo, out string) error {
 	b.WriteString("].\n\n")
 	fmt.Fprintf(&b, "Definition check_escape_skips_calls : bool := %v.\nDefinition check_escape_iterates_marks : bool := %v.\nDefinition check_escape_reports : bool := %v.\n",
 		skipsCalls, iteratesMarks, reports)
+	fmt.Fprintf(&b, "(* calls are skipped (their callees are checked in their own contexts) but builtin calls are not *)\nDefinition check_escape_skips_builtins : bool := %v.\n",
+		skipsCalls && !exemptsBuiltins)
 	return os.WriteFile(filepath.Join(out, "GenLocality.v"), []byte(b.String()), 0o644)
 }
